@@ -311,3 +311,54 @@ func FuzzC17(f *testing.F) {
 	c17Rule()
 	f.Fuzz(propC17.Fuzz())
 }
+
+// ---------------------------------------------------------------------------
+// long units: tens of thousands of continuation packets after one unit start
+
+type CaseC17Long struct {
+	Packets int  `json:"packets"`
+	Seed    byte `json:"seed"`
+}
+
+func checkC17Long(c CaseC17Long, x *hx.Ctx) *hx.Failure {
+	x.NonTrivial()
+	x.Label("long-unit")
+	acc := packet.NewAccumulator(func(b []byte) (bool, error) { return false, nil })
+	var want []byte
+	for i := 0; i < c.Packets; i++ {
+		m := &ref.Packet{Sync: 0x47, PID: 0x100, CC: i & 0xF, PUSI: i == 0, AFC: 1, Payload: bytes.Repeat([]byte{byte(i) ^ c.Seed}, 184)}
+		p := packet.Packet(m.MustBytes())
+		if _, err := acc.WritePacket(&p); err != nil {
+			return hx.Failf("long-unit-refused", "continuation packet %d of one unit (%d bytes accumulated so far) was refused: %v", i, len(want), err)
+		}
+		want = append(want, m.Payload...)
+		if i%4096 == 4095 || i == c.Packets-1 {
+			if got := acc.Bytes(); !bytes.Equal(got, want) {
+				return hx.Failf("long-unit-bytes", "after %d packets Bytes() has %d bytes, want %d (first difference at %d)", i+1, len(got), len(want), firstDiff(got, want))
+			}
+		}
+	}
+	if n := len(acc.Packets()); n != c.Packets {
+		return hx.Failf("long-unit-packets", "Packets() has %d entries after %d accepted packets", n, c.Packets)
+	}
+	return nil
+}
+
+var propC17Long = hx.Register(hx.Prop[CaseC17Long]{ID: "C17", Variant: "long-unit", Check: checkC17Long})
+
+func TestC17LongUnit(t *testing.T) {
+	c17Rule()
+	if !hx.FirstShard() {
+		t.Skip("runs on shard 0")
+	}
+	sizes := []int{400, 23000}
+	if hx.Thorough() {
+		sizes = append(sizes, 48000)
+	}
+	for i, n := range sizes {
+		if f := propC17Long.EvalFast(CaseC17Long{Packets: n, Seed: byte(0x30 + i)}, hx.HashInts(uint64(n))); f != nil {
+			t.Fatalf("VIOLATION-CANDIDATE property=C17 key=%s: %s", f.Key, f.Msg)
+		}
+	}
+	hx.Rec("C17").Subspace("single units of 400 and 23000 (thorough: 48000) full-payload packets, i.e. more than 4 MiB accumulated after one unit start")
+}
